@@ -3,7 +3,7 @@
 import json, subprocess, sys, os
 
 REPO_HOOK_COMMITS = ["51ce9be"]
-# fix: commits in /repo (recorded in known_findings.jsonl): 50eaa9d 8c5e8ca 1ad039d a2fd658 3207f58 09c2b15 3b0dfee 8c772ad 5c48cf6
+# fix: commits in /repo (recorded in known_findings.jsonl): 50eaa9d 8c5e8ca 1ad039d a2fd658 3207f58 09c2b15 3b0dfee 8c772ad 5c48cf6 ad72c2e 591d6e3 297ac37 5c50f69 de60172 f501192
 
 ENV = "export GOFLAGS=-mod=mod GOPROXY=off GOSUMDB=off GOTOOLCHAIN=local; "
 
@@ -13,7 +13,7 @@ G = "runtime monitoring, Engine G: "
 T = "runtime monitoring, Engine T: "
 CHECKS = {
  "C01": ("sched+gen", S+"start/end stamps from one atomic clock inside harness job bodies, checked after quiescence against the scenario's dependency lists, with seeded perturbation at verif hook points, plus an online shadow scheduler fed by the loop's hook events (a job is handed to a worker once, only when every dependency has a result); " + G + "stub call log vs. the abstract program's dependencies (providers, predicates, element calls of End hooks) on freshly generated code",
-         "Held on every observed execution: a dependent never started before its dependency ended ok, no job/function ran twice; scheduler scenarios (DAGs with duplicate deps, late enqueue, both modes, N=1..64) and generated flows/parallels.",
+         "Held on every observed execution: a dependent never started before its dependency ended ok, no job/function ran twice; scheduler scenarios (DAGs with duplicate deps, late enqueue, one job with more than 65536 unfinished dependencies, both modes, N=1..64) and generated flows/parallels (also two directives per file, nested and simultaneous executions).",
          "Trusted: harness bodies/stubs and their clock; the Go runtime. Interleavings reached = OS scheduling + hook perturbation + stub delays.", "3/C01"),
  "C02": ("gen", G+"provenance-hash tokens through freshly generated flow code, compared call by call (arguments, multiplicity, Results) with a reference interpreter written from the statement; each abstract flow printed in 3 listing/option orders; 4/8/32 simultaneous executions of the same directive from as many goroutines, each judged on its own",
          "Held on every observed execution of every generated flow (all spellings/value-type kinds of the grammar, concurrency default..64, delays).",
@@ -25,7 +25,7 @@ CHECKS = {
          "No panic escaped and no child died over all executions in which stubs panicked (6 kinds of values, every function role); returned errors matched observed failures.",
          "panic(nil) excluded (statement says non-nil).", "3/C04"),
  "C05": ("sched+gen", S+"watchdog + stuck-state detector (three identical all-blocked goroutine dumps with a static harness clock) over scenario stress with hook perturbation; " + G + "same detector around every generated-code execution incl. fault, panic and cancel scenarios",
-         "Every Enqueue/Wait/Flow/Parallel returned in all explored scenarios. A hang needing an interleaving never produced is missed.",
+         "Every Enqueue/Wait/Flow/Parallel returned in all explored scenarios, also when tasks or the state emitter kill their goroutine (runtime.Goexit). A hang needing an interleaving never produced is missed.",
          "Liveness restated as 'no stuck state while a call is outstanding'; inconclusive watchdog expiries are reported, not failed.", "3/C05"),
  "C06": ("sched+gen", S+"goroutine census after quiescence (NumGoroutine vs. baseline, then runtime.Stack filtered on goroutines created by the scheduler, stable over three dumps); " + G + "same census after every generated-code execution",
          "After every execution (success, fail-fast, ContinueOnError, cancelled, prompt return with a task still running) the process returned to its goroutine baseline. Found F1 on the pinned tree (fixed).",
@@ -34,13 +34,13 @@ CHECKS = {
          "Held on observed fail-fast executions at scheduler and generated-code level.",
          "Goexit scenarios excluded from error-identity clauses.", "3/C07"),
  "C08": ("sched+gen", S+"multierr.Errors(returned error) compared as a multiset of identities with the failed jobs, invocation log vs. transitive closure; " + G + "Parallel programs with cff.ContinueOnError(expr): every function/element called exactly once, bijection between error entries and failing calls, expr=false behaves fail-fast",
-         "Held on observed ContinueOnError executions incl. late enqueue after a dependency failed and chains of invalidation.",
+         "Held on observed ContinueOnError executions incl. late enqueue after a dependency failed, chains of invalidation, and task errors with a permissive Is method or unwrapping to context errors. Found F17 (fixed).",
          "With cancellation only the weaker 'context errors or distinct failed tasks' clause is judged.", "3/C08"),
  "C09": ("sched+gen", S+"must-not-start sets derived structurally (depends on cancelling job / submitted after cancel() returned / all workers held until after cancel()), prompt return via stuck-state detector, context marker; " + G + "cancel before the call / inside a task / by helper / prompt-return gate on generated code",
-         "Held on observed executions; tasks outside the must-not-start set are not judged (check-then-run window is legitimate).",
+         "Held on observed executions; the must-not-start set includes jobs whose worker was held, before looking at the context, until cancel() had returned; other ready jobs are not judged (the check-then-run window is legitimate).",
          "No timing window is used as a verdict.", "3/C09"),
  "C10": ("gen", G+"exactly-once multiset of (index,element)/(key,value) tokens per collection, End hook start stamp vs. end stamps of all element calls, End hook never after a failed element",
-         "Held on every observed execution of generated Parallel programs (sizes nil/0/1/2/3/7/16/64/1000, index/no-index, ctx/err variants, named collection types, generic enclosing functions). Found F2 (fixed).",
+         "Held on every observed execution of generated Parallel programs (sizes nil/0/1/2/3/7/16/64/1000 and 65537+, index/no-index, ctx/err variants, named collection types, generic enclosing functions, the systematic signature matrix with one-failure scenarios). Found F2 (fixed).",
          "Scratch module is go 1.19 so that loop variables are per-loop, as in cff's own test module.", "3/C10"),
  "C11": ("gen", G+"reference interpreter over predicate outcomes {true,false,panic} x task outcomes {ok,error,panic} with/without FallbackWith; 'predicate starts as soon as its own inputs are there' decided by a gate scenario + stuck-state detector",
          "Held on every observed execution of generated flows with predicates/fallbacks.",
@@ -49,19 +49,19 @@ CHECKS = {
          "No race report over the observed executions; the detector generalises each execution by happens-before.",
          "Harness is written to add no happens-before edges of its own in quiet mode.", "3/C12"),
  "C13": ("tool", T+"the cff binary built from the working tree run as a child process per package over Engine G programs, static multi-directive files and hazard templates in base/source-map x auto-instrument; oracle: no Go panic, positioned diagnostic on failure, outputs parse, package type-checks without the tag, AST scan for residual directives",
-         "Held on all explored inputs except the recorded known findings F4, F5, F10, F11 (identifier/package shadowing and nested directives); F2, F3, F6, F7, F14 were found and fixed.",
+         "Held on all explored inputs except the recorded known findings F4, F5, F10, F11 (identifier/package shadowing and nested directives); F2, F3, F6, F7, F14, F15, F16, F20 were found and fixed.",
          "Known findings are keyed by (spelling feature, compiler message); a different failure is still reported.", "3/C13"),
  "C14": ("tool", T+"random well-formed flows and every applicable single-defect mutation (12 kinds), each its own package; Slice/Map element/key/value type pairs over an 11-type lattice with the expected verdict computed by go/types.AssignableTo; observed: exit status, diagnostic naming the file, presence of *_gen.go",
-         "Every explored ill-formed directive rejected, every well-formed one accepted. Found F8 and F13 (fixed).",
+         "Every explored ill-formed directive rejected, every well-formed one accepted - also in in-package test files and in files with two directives. Found F8 and F13 (fixed).",
          "Each mutation introduces exactly one named defect by construction.", "3/C14"),
  "C15": ("gen", G+"every argument expression of generated programs wrapped in a logging identity function (site, goroutine id, stamp): exactly once, in source order, on the caller's goroutine, before the first stub call; 'bare' programs pass every argument as a plain local variable that is overwritten with a recognisable replacement when the first user function is entered (any replacement seen later = late evaluation); user variables named like generated identifiers carry the Params values",
-         "Held on every observed execution. Found F9 (fixed).",
+         "Held on every observed execution. Found F9 and (with //line comments between the arguments) F16 (fixed).",
          "cff.Invoke's argument must be constant and is not wrapped.", "3/C15"),
  "C16": ("tool", T+"(b) build constraints over {cff,a,b} (exhaustive to a nesting depth, sampled deeper; go:build, +build, both) with truth tables via go/build/constraint for all 8 assignments; (a) structural AST comparison of source and output with directive sites masked; (c) SHA-256 snapshot of the module before/after with random -file selections",
          "Held on every explored file.",
          "go.mod/go.sum are maintained by the go command the loader runs and are excluded from the footprint.", "3/C16"),
  "C17": ("tool", T+"byte comparison of every output across fresh cff processes (base and source-map), against -file singleton/subset runs, and after adding in-package and external test files",
-         "All outputs byte-identical over the explored corpus.",
+         "All outputs byte-identical over the explored corpus: across processes, -file selections, package variants, and a package processed alone vs. together with others.",
          "File order inside a package is fixed by go list.", "3/C17"),
  "C18": ("gen+emit", G+"recording cff.Emitter implementations (1..3 WithEmitter options, nested EmitterStack) on instrumented generated programs; Engine E: cff.EmitterStack/NopEmitter driven at their API over forests of shared, nested and repeatedly extended stacks, per emitter and per stack exact event sequence and payload identity; per execution and per invocation event counts, payload identity, ordering, and equality of what every stacked emitter received",
          "Held on every observed execution.",
@@ -72,7 +72,7 @@ CHECKS = {
 }
 
 CHECKS["C20"] = ("tool+gen", T+"(a) every accepted file generated in base and source-map mode, outputs parsed without comments and compared structurally; " + G + "(b) flows restricted to Params/Results/Concurrency/plain Tasks generated in modifier and base mode, executed under identical scenarios (ok/error/panic per task) against the same reference interpreter",
-         "Source-map output structurally identical to base output on the whole corpus; modifier output compiled and agreed with the reference (hence with base) on every execution.",
+         "Source-map output structurally identical to base output on the whole corpus; modifier output compiled and agreed with the reference (hence with base) on every execution. Found F18 and F19 (inputs with //line comments; fixed).",
          "Modifier agreement is established through agreement of both modes with one reference under identical scenarios.", "3/C20")
 
 PENDING = {}
